@@ -343,6 +343,7 @@ def select__child_path(self: XPathToken, context: ta.ContextType = None) \
         yield from self[0].select(context)
     else:
         items: set[ta.ItemType] = set()
+        nodes: list[XPathNode] = []
         for _ in self[0].select_with_focus(context):
             if not isinstance(context.item, XPathNode):
                 msg = f"Intermediate step contains an atomic value {context.item!r}"
@@ -356,10 +357,13 @@ def select__child_path(self: XPathToken, context: ta.ContextType = None) \
                 elif isinstance(result, ElementNode):
                     if result.value not in items:
                         items.add(result)
-                        yield result
+                        nodes.append(result)
                 else:
                     items.add(result)
-                    yield result
+                    nodes.append(result)
+
+        # A path expression returns its nodes in document order
+        yield from sorted(nodes, key=node_position)
 
 
 @method('//')
@@ -370,6 +374,7 @@ def select__descendant_path(self: XPathToken, context: ta.ContextType = None) \
         raise self.missing_context()
     elif len(self) == 2:
         items: set[ta.ItemType] = set()
+        nodes: list[XPathNode] = []
         for _ in self[0].select_with_focus(context):
             if not isinstance(context.item, XPathNode):
                 raise self.error('XPTY0019')
@@ -383,10 +388,13 @@ def select__descendant_path(self: XPathToken, context: ta.ContextType = None) \
                     elif isinstance(result, ElementNode):
                         if result.value not in items:
                             items.add(result)
-                            yield result
+                            nodes.append(result)
                     else:
                         items.add(result)
-                        yield result
+                        nodes.append(result)
+
+        # A path expression returns its nodes in document order
+        yield from sorted(nodes, key=node_position)
 
     else:
         if isinstance(context.document, DocumentNode):
